@@ -678,6 +678,12 @@ def subproc_toks(
     beg = _abs_lexpos(line, toks[0])
     end = _abs_lexpos(line, toks[-1]) + end_offset
     end = len(line[:end].rstrip())
+    if end <= beg:
+        # Nothing to wrap.  Returning the line with an empty ``![]`` inserted
+        # (or, when ``end < beg``, with the stretch ``line[end:beg]``
+        # duplicated by the slices below) looks like progress to the recovery
+        # loop of the execer, which then doubles the line on every round.
+        return None
     rtn = "![" + line[beg:end] + "]"
     if returnline:
         rtn = line[:beg] + rtn + line[end:]
